@@ -124,7 +124,7 @@ func c16Both(c *fw.Ctx, mtu int, in []byte) bool {
 
 func c16Grid(c *fw.Ctx, i int) {
 	mtu := i + 1
-	buf := c.R.Bytes(320)
+	buf := gen.Value(c.R, 320) // mostly random; some columns of the grid are all one value, start like a container, end in zeros
 	if mtu == 1 {
 		if !c16Both(c, mtu, nil) {
 			return
@@ -191,7 +191,7 @@ func c16Opus(c *fw.Ctx, i int) {
 	r := c.R
 	var in []byte
 	if i <= 320 {
-		in = r.Bytes(i)
+		in = gen.Value(r, i)
 	} else if i == 321 {
 		in = nil
 	} else {
